@@ -56,6 +56,7 @@ type Config struct {
 	TLS       *tls.Config       // used for STARTTLS / implicit TLS
 	Implicit  bool              // TLS from the first byte
 	Auth      func(state *tls.ConnectionState) AuthHandler
+	RawLines  bool // record every line read in command mode as raw bytes
 	HSGarbage bool // answer the ClientHello with bytes that are not TLS
 	HSStall   bool // never answer the ClientHello
 	// CredScan reports whether a cleartext line carries a password-revealing payload.
@@ -269,6 +270,9 @@ func (x *session) serveCmds() {
 			return
 		}
 		raw := strings.TrimRight(line, "\r\n")
+		if s.cfg.RawLines {
+			s.rec.Emit("rawline", "b", lineBytes(line), "crlf", strings.HasSuffix(line, "\r\n"))
+		}
 		verb := strings.ToUpper(strings.SplitN(raw, " ", 2)[0])
 		arg := ""
 		if i := strings.IndexByte(raw, ' '); i >= 0 {
@@ -372,6 +376,16 @@ func (x *session) serveCmds() {
 			}
 		}
 	}
+}
+
+// lineBytes returns the bytes of a line without its terminating CRLF (or LF) as integers.
+func lineBytes(line string) []int {
+	line = strings.TrimSuffix(strings.TrimSuffix(line, "\n"), "\r")
+	out := make([]int, len(line))
+	for i := 0; i < len(line); i++ {
+		out[i] = int(line[i])
+	}
+	return out
 }
 
 func clip(s string) string {
@@ -574,6 +588,9 @@ func (x *session) auth(arg string) bool {
 			return false
 		}
 		raw := strings.TrimRight(line, "\r\n")
+		if s.cfg.RawLines {
+			s.rec.Emit("rawline", "b", lineBytes(line), "crlf", strings.HasSuffix(line, "\r\n"))
+		}
 		if raw == "*" {
 			s.rec.Emit("cmd", "verb", "ABORT", "m", 0, "r", 0, "params", []string{}, "enc", x.enc,
 				"cred", false, "mech", "", "wf", strings.HasSuffix(line, "\r\n"), "line", "*")
